@@ -23,19 +23,17 @@ var fullMemo = gram.Full.With("full+memo", gram.Memo)
 
 func c03Specs(tier string) []spaceSpec {
 	if tier == "thorough" {
-		return []spaceSpec{
+		return append(quietSpaces(8), []spaceSpec{
 			{sp: &gram.Space{Name: "root+inline-memo", Alpha: fullMemo, HasRoot: true, Min: 2, Max: 6}, maxLen: 4, alpha: ab},
 			{sp: &gram.Space{Name: "root+1shared", Alpha: fullMemo, NSh: 1, HasRoot: true, Min: 2, Max: 7}, maxLen: 4, alpha: ab},
 			{sp: &gram.Space{Name: "root+2shared", Alpha: gram.Full, NSh: 2, HasRoot: true, Min: 3, Max: 7}, maxLen: 3, alpha: ab},
-			quietSpace(8),
-		}
+		}...)
 	}
-	return []spaceSpec{
+	return append(quietSpaces(6), []spaceSpec{
 		{sp: &gram.Space{Name: "root+inline-memo", Alpha: fullMemo, HasRoot: true, Min: 2, Max: 5}, maxLen: 4, alpha: ab},
 		{sp: &gram.Space{Name: "root+1shared", Alpha: fullMemo, NSh: 1, HasRoot: true, Min: 2, Max: 6}, maxLen: 4, alpha: ab},
 		{sp: &gram.Space{Name: "root+2shared", Alpha: gram.Full, NSh: 2, HasRoot: true, Min: 3, Max: 6}, maxLen: 3, alpha: ab},
-		quietSpace(7),
-	}
+	}...)
 }
 
 // quietConsumers: a fixed memoized S0 that SUCCEEDS while recording a furthest error in the context
@@ -44,10 +42,19 @@ func c03Specs(tier string) []spaceSpec {
 // (a SuppressError that restores the context, say) can take that away again.
 var quietAlphabet = gram.Alphabet{Name: "suppress-consumers", Terminals: []byte{'a', 'b'}, Unary: []gram.Kind{gram.SupErr, gram.Opt}, Binary: []gram.Kind{gram.Any, gram.Seq}}
 
-func quietSpace(maxRoot int) spaceSpec {
-	g, _ := gram.Parse("N0=(any (seq a b) a)")
-	return spaceSpec{sp: &gram.Space{Name: "suppress-consumers of S0!=(any (seq a b) a)", Alpha: quietAlphabet, HasRoot: true, Min: 2, Max: maxRoot,
-		FixedShared: []*gram.Expr{g.NTs[0]}, FixedSharedMemo: []bool{true}}, maxLen: 3, alpha: ab, noSubsets: true}
+func quietSpaces(maxRoot int) []spaceSpec {
+	var out []spaceSpec
+	// S0 succeeds while recording a furthest error; S0 returns a match TOGETHER with an error (Optional);
+	// S0 fails silently (no node, no error)
+	for _, body := range []string{"(any (seq a b) a)", "(opt (seq a b))", "(suppress a)", "(suppress (seq a b))"} {
+		g, err := gram.Parse("N0=" + body)
+		if err != nil {
+			panic(err)
+		}
+		out = append(out, spaceSpec{sp: &gram.Space{Name: "suppress-consumers of S0!=" + body, Alpha: quietAlphabet, HasRoot: true, Min: 2, Max: maxRoot,
+			FixedShared: []*gram.Expr{g.NTs[0]}, FixedSharedMemo: []bool{true}}, maxLen: 3, alpha: ab, noSubsets: true})
+	}
+	return out
 }
 
 var c03Seeds = []Case{
